@@ -2,6 +2,10 @@ package kv
 
 import (
 	"fmt"
+
+	"github.com/cespare/xxhash"
+
+	"github.com/anyproto/any-sync/commonspace/spacesyncproto"
 	"os"
 	"strings"
 	"time"
@@ -33,6 +37,8 @@ func Run(r *corr.Run) {
 	c.genPermutations()
 	c.genExchangeFixed()
 	c.genExchangeBig()
+	c.genExchangeDeep()
+	c.genInflight()
 	c.genBigRepeat()
 	for i := 0; r.TimeLeft(); i++ {
 		switch i % 4 {
@@ -44,6 +50,9 @@ func Run(r *corr.Run) {
 			c.genPermutationsRandom()
 		case 3:
 			c.genRandomFaults()
+			if i%8 == 3 {
+				c.genInflight()
+			}
 		}
 		if r.Issues() >= 12 {
 			break
@@ -257,11 +266,11 @@ func (c *cases) genFaultSweep() {
 	d0, d1 := c.dev("w", 0), c.dev("o", 1)
 	pre := []*rawValue{c.valid("w", d0, "k0", c.nextTs(), recAdd), c.valid("o", d1, "k1", c.nextTs(), recRoot)}
 	batch := []*rawValue{
-		c.valid("w", d0, "k0", c.nextTs(), recAdd),  // update
-		c.valid("o", d1, "k0", c.nextTs(), recRoot), // insert
-		c.valid("w", d0, "k0", c.nextTs(), recAdd),  // second update of the same slot in one batch
+		c.valid("w", d0, "k0", c.nextTs(), recAdd),   // update
+		c.valid("o", d1, "k0", c.nextTs(), recRoot),  // insert
+		c.valid("w", d0, "k0", c.nextTs(), recAdd),   // second update of the same slot in one batch
 		c.valid("o", d1, "k1", pre[1].ts-1, recRoot), // loses
-		c.valid("o", d1, "k0", c.nextTs(), recRoot), // update of an id inserted by this batch
+		c.valid("o", d1, "k0", c.nextTs(), recRoot),  // update of an id inserted by this batch
 		c.valid("w", d0, "note.read", c.nextTs(), recAdd),
 	}
 	faults := []fault{{"begin", 0}, {"head", 0}, {"commit", 0}}
@@ -495,7 +504,9 @@ type slotRef struct {
 // directed exchanges: disjoint, identical, ours newer, theirs newer, one side empty
 func (c *cases) genExchangeFixed() {
 	d0, d1 := c.dev("w", 0), c.dev("o", 0)
-	mk := func(d *device, key string) *rawValue { return c.valid(map[bool]string{true: "w", false: "o"}[d == d0], d, key, c.nextTs(), recAdd) }
+	mk := func(d *device, key string) *rawValue {
+		return c.valid(map[bool]string{true: "w", false: "o"}[d == d0], d, key, c.nextTs(), recAdd)
+	}
 	a1, a2, a3 := mk(d0, "k0"), mk(d0, "k0"), mk(d0, "k0")
 	b1, b2 := mk(d1, "k1"), mk(d1, "k1")
 	cshared := mk(d1, "note.read")
@@ -630,4 +641,145 @@ func (c *cases) genBigRepeat() {
 	c.raw(s2, "raw", fault{"head", 0}, batch)
 	c.r.Case(trace(s), true)
 	c.r.Count("gen.bigrepeat")
+}
+
+// sameBucketKeys: keys for device d whose slot ids hash (xxhash64, as app/ldiff does) into the same
+// ldiff range at the given level (level 1 = one of the 32 children of the top range, level 2 = one of
+// its 32 children: with df = 32 the ranges are exactly the top 5·level bits). One sub-range of that
+// range is reserved: `in` (n keys) avoids it, `reserved` (m keys) lies inside it.
+func (c *cases) sameBucketKeys(d *device, level, n, m int) (in, reserved []string) {
+	shift := uint(64 - 5*level)
+	target := uint64(c.r.Intn(1 << uint(5*level)))
+	sub := uint64(c.r.Intn(32))
+	for i := 0; len(in) < n || len(reserved) < m; i++ {
+		k := fmt.Sprintf("deep%d.%d", level, i)
+		h := xxhash.Sum64String(k + "-" + d.peerId)
+		if h>>shift != target {
+			continue
+		}
+		if (h>>(shift-5))&31 == sub {
+			if len(reserved) < m {
+				reserved = append(reserved, k)
+			}
+		} else if len(in) < n {
+			in = append(in, k)
+		}
+	}
+	return
+}
+
+// exchanges in which ONE side's ldiff tree is divided below the top (more than compareThreshold = 256
+// ids inside one range, one and two levels down) and the other side's is not — the recursion through
+// the real remotediff adapter has to descend on one side only. The small side also owns a few ids in
+// a sub-range that is EMPTY on the big side (the nil-hash corner of the diff).
+func (c *cases) genExchangeDeep() {
+	levels := []int{1, 2}
+	if !c.r.Quick() {
+		levels = []int{1, 2, 3}
+	}
+	for _, level := range levels {
+		d := c.w.devices[c.r.Intn(len(c.w.devices))]
+		keys, reserved := c.sameBucketKeys(d, level, 280, 6)
+		for _, bigIsServer := range []bool{true, false} {
+			var all, some []*rawValue
+			for i, k := range keys {
+				v := c.randomAcceptable(k, d, c.nextTs())
+				all = append(all, v)
+				switch {
+				case i%3 == 0: // both have it
+					some = append(some, v)
+				case i%10 == 1: // the small side has a newer one
+					some = append(some, c.randomAcceptable(k, d, c.nextTs()+1000000))
+				case i%10 == 2: // the small side has an older one
+					some = append(some, c.randomAcceptable(k, d, v.ts-900000))
+				}
+			}
+			for _, k := range reserved { // only the small side, in a sub-range the big side has nothing in
+				some = append(some, c.randomAcceptable(k, d, c.nextTs()))
+			}
+			a, b := c.newSut(c.dev("o", 0)), c.newSut(c.dev("w", 0))
+			big, small := b, a
+			if !bigIsServer {
+				big, small = a, b
+			}
+			c.raw(big, "raw", fault{}, all)
+			c.raw(small, "raw", fault{}, some)
+			c.exchange(a, b)
+			c.r.Case(trace(a), true)
+			c.r.Count(fmt.Sprintf("gen.exchange.deep.level=%d", level))
+		}
+	}
+}
+
+// values arriving while an exchange is in flight: new writes land on the server before it answers the
+// first range request, and on both sides after the client has computed its diff. During that exchange
+// neither store may go back or hold anything that was not sent; afterwards ONE quiescent exchange must
+// equalise. Oracle only (the model has no such schedule).
+func (c *cases) genInflight() {
+	a, b := c.newSut(c.dev("o", 1)), c.newSut(c.dev("w", 1))
+	a.noModel, b.noModel = true, true
+	var slots []slotRef
+	for i := 0; i < 4+c.r.Intn(8); i++ {
+		slots = append(slots, slotRef{fmt.Sprintf("f%d", i), c.w.devices[c.r.Intn(len(c.w.devices))]})
+	}
+	c.fill(a, slots, c.r.Intn(2*len(slots)))
+	c.fill(b, slots, c.r.Intn(2*len(slots)))
+	known := map[int]*rawValue{}
+	for _, v := range append(append([]*rawValue(nil), a.received...), b.received...) {
+		known[v.vid] = v
+	}
+	a.known, b.known = known, known
+	inject := func(s *sut, n int) {
+		var batch []*rawValue
+		for i := 0; i < n; i++ {
+			sr := slots[c.r.Intn(len(slots))]
+			ts := c.nextTs()
+			if c.r.Chance(30) {
+				ts -= 400000 // an old value arriving late
+			}
+			v := c.randomAcceptable(sr.key, sr.d, ts)
+			known[v.vid] = v
+			batch = append(batch, v)
+		}
+		protos := make([]*spacesyncproto.StoreKeyValue, 0, len(batch))
+		for _, v := range batch {
+			protos = append(protos, cloneProto(v.proto))
+		}
+		if err := s.st.SetRaw(bg, protos...); err != nil {
+			c.r.Violate(prop, "", "kv.inflight", "SetRaw during an exchange failed: "+err.Error(), s.ops)
+			return
+		}
+		s.received = append(s.received, batch...)
+		s.ops = append(s.ops, fmt.Sprintf("# in-flight arrival of %d values on store %d", len(batch), s.mid))
+		c.r.Count("inflight.arrivals")
+	}
+	where := c.r.Intn(3)
+	onDiff := func(n int) {
+		if n == 1 && where != 1 {
+			inject(b, 1+c.r.Intn(3))
+		}
+	}
+	onElements := func() {
+		if where != 0 {
+			inject(a, 1+c.r.Intn(3))
+			inject(b, 1+c.r.Intn(3))
+		}
+	}
+	a.loose, b.loose = true, true
+	err := syncOnceHooked(a.store, b.store, onDiff, onElements)
+	if err != nil {
+		c.r.Violate(prop, "", "kv.inflight", "exchange with in-flight arrivals failed: "+err.Error(), a.ops)
+	}
+	a.cap.take()
+	b.cap.take()
+	op := fmt.Sprintf("# exchange %d %d with in-flight arrivals (schedule %d)", a.mid, b.mid, where)
+	a.ops = append(a.ops, op)
+	b.ops = append(b.ops, op)
+	c.observe(a, "new", "")
+	c.observe(b, "new", "")
+	a.loose, b.loose = false, false
+	// one quiescent exchange equalises (what the interrupted one missed is now in the diff)
+	c.exchange(a, b)
+	c.r.Case(trace(a), true)
+	c.r.Count("gen.inflight")
 }
